@@ -212,8 +212,12 @@ class URLInfo(object):
         info.fragment = normalize_fragment(fragment, encoding=encoding)
 
         info.userinfo = userinfo
-        info.username = percent_decode(username, encoding=encoding)
-        info.password = percent_decode(password, encoding=encoding)
+        # Bytes that are not valid in the encoding are kept (as surrogate
+        # escapes) so that the user info survives being parsed again.
+        info.username = percent_decode(username, encoding=encoding,
+                                       errors='surrogateescape')
+        info.password = percent_decode(password, encoding=encoding,
+                                       errors='surrogateescape')
 
         info.host = host
         info.hostname = hostname
@@ -564,7 +568,9 @@ def normalize_username(text, encoding='utf-8'):
     Percent-encodes unacceptable characters and ensures percent-encoding is
     uppercase.
     '''
-    path = percent_encode(text, encoding=encoding, encode_set=USERNAME_ENCODE_SET)
+    path = percent_encode(text, encoding=encoding,
+                          encode_set=USERNAME_ENCODE_SET,
+                          errors='surrogateescape')
     return uppercase_percent_encoding(path)
 
 
@@ -574,7 +580,9 @@ def normalize_password(text, encoding='utf-8'):
     Percent-encodes unacceptable characters and ensures percent-encoding is
     uppercase.
     '''
-    path = percent_encode(text, encoding=encoding, encode_set=PASSWORD_ENCODE_SET)
+    path = percent_encode(text, encoding=encoding,
+                          encode_set=PASSWORD_ENCODE_SET,
+                          errors='surrogateescape')
     return uppercase_percent_encoding(path)
 
 
@@ -598,13 +606,14 @@ _percent_encoder_map_cache = {}
 '''Cache of :class:`PercentEncoderMap`.'''
 
 
-def percent_encode(text, encode_set=DEFAULT_ENCODE_SET, encoding='utf-8'):
+def percent_encode(text, encode_set=DEFAULT_ENCODE_SET, encoding='utf-8',
+                   errors='strict'):
     '''Percent encode text.
 
     Unlike Python's ``quote``, this function accepts a blacklist instead of
     a whitelist of safe characters.
     '''
-    byte_string = text.encode(encoding)
+    byte_string = text.encode(encoding, errors)
 
     try:
         mapping = _percent_encoder_map_cache[encode_set]
